@@ -166,5 +166,9 @@ def make_gateway(h, version="1.4", flavour="sync", persistence="sym", callback=T
     ctx.ghost["localtime"] = 0
     ctx.ghost["new_id"] = None
     ctx.ghost["sent"] = SeqVal("str", z3.Empty(QSTR), "list")
+    # ghost: every reply handed to the transport so far was a command for `sender` (the node whose line is
+    # being processed; set by the contracts on Gateway.logic)
+    ctx.ghost["sender"] = None
+    ctx.ghost["jobs_ok"] = True
     f["tasks"] = tasks
     return gw
